@@ -45,7 +45,7 @@ def run_case(case, benign=False):
         if err: return cid, 'BROKEN-CASE', err
         b = subprocess.run(['go', 'build', './...'], cwd=d, capture_output=True, text=True, env=ENV)
         if b.returncode != 0: return cid, 'BROKEN-CASE', 'does not compile: ' + b.stderr[:300]
-        t = subprocess.run(['go', 'test', '-vet=off', '-count=1', '.'], cwd=d, capture_output=True, text=True, env=ENV)
+        t = subprocess.run(['go', 'test', '-vet=off', '-count=1', '-timeout', '90s', '.'], cwd=d, capture_output=True, text=True, env=ENV)
         tests = 'tests-pass' if t.returncode == 0 else 'tests-FAIL'
         res = []
         for p in props:
